@@ -48,6 +48,11 @@ SPECS = {
     # old or the new object, never a mixture, and a result handed out must not change afterwards
     "upd_filtered_req": dict(pre=[("regp", CAM), ("regc", CAM), ("add", CAM, "camA", 5)], adv=0,
                              actors=[[("upd", CAM, 0, "camC")], [("reqf", CAM, (CAM,), "camA", "camC")], [("req", CAM, (CAM,))]]),
+    # an attendance pass overlaps with a consumer registering and subscribing: the acknowledged subscription must survive
+    # (a final attendance, run after the actors, must notify it)
+    "attend_reg_sub": dict(pre=[("regp", CAM), ("add", CAM, "camA", 9)], adv=0,
+                           actors=[[("attend",)], [("regc", CAM), ("sub", CAM, (CAM,), "s3")], [("regc", VAM)]],
+                           post=[("attend",), ("unsub", CAM, "s3")]),
     # update || query || maintenance
     "upd_req_trash": dict(pre=[("regp", CAM), ("regc", CAM), ("add", CAM, "camA", 5)], adv=0,
                           actors=[[("upd", CAM, 0, "camB")], [("req", CAM, (CAM,))], [("maint",)]]),
@@ -167,11 +172,13 @@ class LdmHarness:
 
     def final(self):
         w = self.w
+        if not hasattr(self, "_post_done"):
+            self._post_done = [repr(self.do(op)) for op in self.spec.get("post", [])]
         store = w.request(CAM, (CAM, DENM, VAM)) if True else None
         if not L.is_exc(store):
             store = (store[0], canon_records(store[1]))
         calls = tuple(sorted((c[0], canon_records(c[3])) for c in w.calls))
-        return (store, w.registries(), calls)
+        return (store, w.registries(), calls, tuple(self._post_done))
 
     def outcome(self, s):
         if not hasattr(self, "_out"):
